@@ -40,9 +40,27 @@ const (
 	c15HostB = "host-b.example"
 )
 
+// c15Configs: provider configurations the scenarios are explored under. Every one derives the issuer from the request Host (so
+// that the issuer is a per-request datum); they differ in which endpoints are fixed URLs / custom paths.
+var c15Configs = map[string]world.Config{
+	"":                 {IssuerMode: "host"},
+	"metadata-url":     {IssuerMode: "host", Metadata: &world.EP{Path: "/metadata", URL: "https://meta.example/idp/metadata"}},
+	"custom-endpoints": {IssuerMode: "host", HostPath: "saml", SSO: &world.EP{Path: "/custom/sso"}, SLO: &world.EP{Path: "custom/slo"}, Attribute: &world.EP{Path: "/custom/attr"}, Callback: &world.EP{Path: "/custom/cb"}},
+	"sso-url":          {IssuerMode: "host", SSO: &world.EP{Path: "/ext/sso", URL: "https://external.example/sso"}, Attribute: &world.EP{Path: "/ext/attr", URL: "https://external.example/attr"}},
+}
+
+// c15Cfg is the configuration of this process's scheduler scenarios (worker processes set it from their arguments).
+var c15Cfg = ""
+
 // c15World: host-derived issuer; SP A/B; three completed sessions with marker-laden data.
-func c15World() *world.World {
-	w, err := world.New(world.Config{IssuerMode: "host"})
+func c15World() *world.World { return c15WorldCfg(c15Cfg) }
+
+func c15WorldCfg(cfgName string) *world.World {
+	cfg, ok := c15Configs[cfgName]
+	if !ok {
+		panic("c15: unknown configuration " + cfgName)
+	}
+	w, err := world.New(cfg)
 	if err != nil {
 		panic(err)
 	}
@@ -193,20 +211,23 @@ var reLoginID = regexp.MustCompile(`authRequestID=([0-9a-f-]{36})`)
 
 var c15Solo sync.Map // body name -> c15Obs of the request alone on a fresh world
 
-func c15SoloObs(b c15Body) c15Obs {
-	if o, ok := c15Solo.Load(b.Name); ok {
+func c15SoloObs(b c15Body) c15Obs { return c15SoloObsCfg(b, c15Cfg) }
+
+func c15SoloObsCfg(b c15Body, cfgName string) c15Obs {
+	if o, ok := c15Solo.Load(cfgName + "|" + b.Name); ok {
 		return o.(c15Obs)
 	}
-	w := c15World()
+	w := c15WorldCfg(cfgName)
 	rep := w.Do(b.Req(w))
 	o := c15Observe(rep)
-	c15Solo.Store(b.Name, o)
+	c15Solo.Store(cfgName+"|"+b.Name, o)
 	return o
 }
 
 type c15Scenario struct {
 	Name   string
 	Bodies []int
+	Cfg    string // key of c15Configs
 }
 
 func c15Scenarios() []c15Scenario {
@@ -222,11 +243,19 @@ func c15Scenarios() []c15Scenario {
 	var out []c15Scenario
 	for i := range bs {
 		for j := i; j < len(bs); j++ {
-			out = append(out, c15Scenario{bs[i].Name + " || " + bs[j].Name, []int{i, j}})
+			out = append(out, c15Scenario{Name: bs[i].Name + " || " + bs[j].Name, Bodies: []int{i, j}})
 		}
 	}
 	for _, t := range [][]string{{"sso-A", "callback-S2", "metadata-b"}, {"callback-S1", "callback-S2", "callback-S3"}, {"logout-A", "attrquery-S2", "sso-B"}} {
-		out = append(out, c15Scenario{strings.Join(t, " || "), []int{idx(t[0]), idx(t[1]), idx(t[2])}})
+		out = append(out, c15Scenario{Name: strings.Join(t, " || "), Bodies: []int{idx(t[0]), idx(t[1]), idx(t[2])}})
+	}
+	// the two-tenant pairs again under the other provider configurations (fixed metadata URL, custom endpoint paths with an
+	// issuer path, fixed SSO / attribute URLs)
+	for _, cfg := range []string{"metadata-url", "custom-endpoints", "sso-url"} {
+		for _, t := range [][2]string{{"sso-A", "sso-B"}, {"metadata-a", "metadata-b"}, {"sso-A", "metadata-b"}, {"sso-rejected-A", "sso-B"}, {"attrquery-S1", "attrquery-S2"}, {"attrquery-S1", "metadata-b"},
+			{"logout-A", "logout-B"}, {"callback-S1", "callback-S2"}, {"callback-S1", "metadata-b"}, {"sso-B", "sso-B"}, {"metadata-b", "metadata-b"}} {
+			out = append(out, c15Scenario{Name: t[0] + " || " + t[1] + " [config " + cfg + "]", Bodies: []int{idx(t[0]), idx(t[1])}, Cfg: cfg})
+		}
 	}
 	return out
 }
@@ -255,6 +284,7 @@ type c15WorkerResult struct {
 
 func c15RunScenario(sc c15Scenario, bound int, deadline time.Time, only []int) c15WorkerResult {
 	world.PinClock()
+	c15Cfg = sc.Cfg // one scenario per process (worker / replay)
 	bs := c15Bodies()
 	res := c15WorkerResult{Scenario: sc.Name, Bound: bound, Outcomes: map[string]int{}}
 	world.ThreadID = sched.CurrentThread
@@ -438,7 +468,7 @@ func runC15(ctx Ctx) int {
 		}
 	}
 	run := ev.NewRun("C15")
-	run.Rule = "stateless exploration under a cooperative scheduler: every interleaving, within the preemption bound, of 2-3 real requests against ONE provider (120 pairs over 15 request bodies incl. every body with itself, 3 triples); scheduling points before EVERY STATEMENT of every repository function (and at every function / function-literal entry, every storage call, every sync-shim operation); a state is a schedule (choice sequence); oracle: each reply (IDs, signature bytes masked) equals the reply the same request gets alone on a fresh provider, a request sent on to the login UI was persisted by itself exactly once and is sent to the id returned for it, no reply or storage call carries another session's marker, all message IDs of all threads and executions are distinct NCNames, no deadlock; history companion: every sequence of <= 3 requests on one provider gives each the solo reply and never repeats a message ID; b1 ; one failing storage operation (8 operations) ; b2 gives b2 the reply it gets on a fresh provider with the same failure; race companion: the same bodies free-running in a -race build"
+	run.Rule = "stateless exploration under a cooperative scheduler: every interleaving, within the preemption bound, of 2-3 real requests against ONE provider (171 pairs over 18 request bodies incl. every body with itself, 3 triples, 33 two-tenant pairs under three other provider configurations); scheduling points before EVERY STATEMENT of every repository function (and at every function / function-literal entry, every storage call, every sync-shim operation); a state is a schedule (choice sequence); oracle: each reply (IDs, signature bytes masked) equals the reply the same request gets alone on a fresh provider, a request sent on to the login UI was persisted by itself exactly once and is sent to the id returned for it, no reply or storage call carries another session's marker, all message IDs of all threads and executions are distinct NCNames, no deadlock; history companion: every sequence of <= 3 (quick: 2) requests on one provider, under each of 4 provider configurations (default endpoints, fixed metadata URL, custom endpoint paths below an issuer path, fixed SSO / attribute URLs), gives each the solo reply and never repeats a message ID; the two-tenant pairs are also explored under the three non-default configurations; b1 ; one failing storage operation (8 operations) ; b2 gives b2 the reply it gets on a fresh provider with the same failure; race companion: the same bodies free-running in a -race build"
 	run.Assume = []string{"interleavings inside one statement, inside the Go runtime and inside third-party libraries are not explored by the scheduler; unsynchronised accesses there are the race companion's business (free-running, not exhaustive)", "preemption bound as reported; N is 2-3 threads"}
 	if ctx.Replay != "" {
 		var rp c15Replay
@@ -541,9 +571,10 @@ func runC15(ctx Ctx) int {
 	}
 	gen(nil)
 	world.PinClock()
-	_, c2 := parallel(len(seqs), deadline, func(i int) {
-		seq := seqs[i]
-		w := c15World()
+	cfgNames := sortedKeys(c15Configs)
+	_, c2 := parallel(len(seqs)*len(cfgNames), deadline, func(i int) {
+		seq, cfgName := seqs[i/len(cfgNames)], cfgNames[i%len(cfgNames)]
+		w := c15WorldCfg(cfgName)
 		var last c15Obs
 		seenIDs := map[string]bool{}
 		dupID := ""
@@ -557,7 +588,7 @@ func runC15(ctx Ctx) int {
 			}
 		}
 		if dupID != "" {
-			labels := []string{"history"}
+			labels := []string{"history", "config=" + cfgName}
 			for _, bi := range seq {
 				labels = append(labels, "step="+bs[bi].Name)
 			}
@@ -565,10 +596,10 @@ func runC15(ctx Ctx) int {
 		}
 		run.Evaluations.Add(1)
 		run.Transitions.Add(int64(len(seq)))
-		solo := c15SoloObs(bs[seq[len(seq)-1]])
+		solo := c15SoloObsCfg(bs[seq[len(seq)-1]], cfgName)
 		if last.Norm != solo.Norm {
 			run.Outcome("history:differs")
-			labels := []string{"history"}
+			labels := []string{"history", "config=" + cfgName}
 			for _, bi := range seq {
 				labels = append(labels, "step="+bs[bi].Name)
 			}
